@@ -8,6 +8,7 @@ import (
 	"fmt"
 	"os"
 	"path/filepath"
+	"regexp"
 	"strings"
 
 	"filippo.io/age"
@@ -496,6 +497,42 @@ func main() {
 				}
 			}
 			c.Sample(map[string]interface{}{"case": "dec-identity", "output_spelling": "../" + cwdName + "/x0.txt"})
+
+			// ------------------------------------------------------------ autogenerated passphrase (pty)
+			c.Part("autogenerated-passphrase")
+			c.Bound("age -p with an empty passphrase typed at the terminal: the passphrase printed to the terminal is ten lowercase words joined by '-', and decrypts the output")
+			{
+				os.Remove(outp)
+				cmd := cli.NewCmd(ageBin, "-p", "-o", "out.bin", "in1")
+				cmd.Dir = work
+				cmd.TTYInput = []string{""}
+				r := cmd.Run()
+				c.Eval(1)
+				c.DistinctOnce(424242)
+				m := regexp.MustCompile(`autogenerated passphrase "([^"]*)"`).FindSubmatch(r.TTY)
+				out, _ := os.ReadFile(outp)
+				switch {
+				case r.Exit != 0 || m == nil:
+					c.Fail("autogenerated-passphrase", "autogen", fmt.Sprintf("age -p with autogenerated passphrase: exit %d, terminal output %q", r.Exit, ev.Clip(string(r.TTY), 300)), nil)
+				default:
+					words := strings.Split(string(m[1]), "-")
+					okw := len(words) == 10
+					for _, w := range words {
+						if len(w) < 3 || strings.ToLower(w) != w {
+							okw = false
+						}
+					}
+					if !okw {
+						c.Fail("autogenerated-passphrase-shape", "autogen", fmt.Sprintf("autogenerated passphrase %q is not ten words", m[1]), nil)
+					}
+					idn, _ := age.NewScryptIdentity(string(m[1]))
+					res := lab.DecryptBytes(out, false, idn)
+					if !res.OK() || !bytes.Equal(res.Plain, plains[1]) {
+						c.Fail("autogenerated-passphrase-does-not-decrypt", "autogen", fmt.Sprintf("output does not decrypt with the printed passphrase: %v %v", res.DecryptErr, res.ReadErr), nil)
+					}
+				}
+				c.Sample(map[string]interface{}{"command": "age -p -o out.bin in1 (empty passphrase at the prompt)", "terminal_shows": "age: using autogenerated passphrase \"...\""})
+			}
 
 			// ------------------------------------------------------------ age-keygen
 			c.Part("age-keygen")
